@@ -26,75 +26,76 @@ _Static_assert(LONG_MAX == 9223372036854775807L && INT_MAX == 2147483647, "LP64 
 
 /* ------------------------------------------------------------------------
  * Decimal value of the run of digits s[a..b)  (a < b, all digits).
- *   vp_dec_over(s,a,b,neg): the value exceeds LONG_MAX (LONG_MAX+1 if neg)
- *   vp_dec_mag(s,a,b,neg):  the value (unspecified if vp_dec_over)
+ *   vp_dec_huge(s,a,b): the value does not fit an unsigned long
+ *   vp_dec_mag(s,a,b):  the value (unspecified if huge)
  * version_parse does no arithmetic on digits itself (strtol does).  Under CBMC the
- * value of a run is therefore an UNINTERPRETED function of (the bytes of the run,
- * a, b), used by the strtol model and by the specification alike: what is proved
- * holds for every such function, in particular for the decimal value, and the SAT
- * problem loses the 64-bit multiply-add chains whose equivalence cost > 3 min at
- * VP_N = 12.  The only property of the decimal value that is used, "not over =>
- * mag <= limit", is built into vp_dec_mag by clamping (the identity on the real
- * function).  -DVP_CONCRETE_ARITH (a thorough-tier group) and the native
- * cross-check use the real arithmetic.
+ * value of a run is therefore an UNINTERPRETED function of (the bytes of the run, a,
+ * b), used by the strtol model and by the specification alike: what is proved holds
+ * for every such function, in particular for the decimal value, and the SAT problem
+ * loses the 64-bit multiply-add chains (measured at VP_N = 12: accept/refuse 5 s,
+ * positions of the numbers 7 s, equality of the numbers 70-170 s with real
+ * arithmetic).  No property of the decimal value is assumed.  -DVP_CONCRETE_ARITH
+ * (thorough tier) and the native cross-check use the real arithmetic.
  * ------------------------------------------------------------------------ */
 #define VP_LIM(neg) ((neg) ? (unsigned long) LONG_MAX + 1UL : (unsigned long) LONG_MAX)
 #if defined(VERIF_CBMC) && !defined(VP_CONCRETE_ARITH)
 _Static_assert(VP_N >= 8 && VP_N <= 16, "vp_pack packs the string into two 64-bit words");
 unsigned long __CPROVER_uninterpreted_dec_mag(unsigned long w0, unsigned long w1, int a, int b);
-_Bool __CPROVER_uninterpreted_dec_over(unsigned long w0, unsigned long w1, int a, int b, _Bool neg);
+_Bool __CPROVER_uninterpreted_dec_huge(unsigned long w0, unsigned long w1, int a, int b);
 /* the bytes of s[a..b) at their own positions, everything else zero */
 static unsigned long vp_pack(const char *s, int a, int b, int word)
 {
 	unsigned long w = 0;
-	for (int k = 0; k < VP_N; k++) {
-		if (k / 8 != word)
-			continue;
+	for (int k = 8 * word; k < 8 * word + 8 && k < VP_N; k++)
 		if (k >= a && k < b)
 			w |= ((unsigned long) (unsigned char) s[k]) << (8 * (k % 8));
-	}
 	return w;
 }
-static int vp_dec_over(const char *s, int a, int b, int neg)
+static int vp_dec_huge(const char *s, int a, int b)
 {
-	return __CPROVER_uninterpreted_dec_over(vp_pack(s, a, b, 0), vp_pack(s, a, b, 1), a, b, neg != 0);
+	return __CPROVER_uninterpreted_dec_huge(vp_pack(s, a, b, 0), vp_pack(s, a, b, 1), a, b);
 }
-static unsigned long vp_dec_mag(const char *s, int a, int b, int neg)
+static unsigned long vp_dec_mag(const char *s, int a, int b)
 {
-	unsigned long m = __CPROVER_uninterpreted_dec_mag(vp_pack(s, a, b, 0), vp_pack(s, a, b, 1), a, b);
-	return m > VP_LIM(neg) ? VP_LIM(neg) : m;
+	return __CPROVER_uninterpreted_dec_mag(vp_pack(s, a, b, 0), vp_pack(s, a, b, 1), a, b);
 }
 #else
-/* acc*10+d <= limit, without a run-time division: LONG_MAX = 10 * VP_Q + 7 */
-#define VP_Q 922337203685477580UL
-#define VP_FITS_LONG(acc, d, neg) ((acc) < VP_Q || ((acc) == VP_Q && (d) <= ((neg) ? 8UL : 7UL)))
-static int vp_dec_over(const char *s, int a, int b, int neg)
+/* acc*10+d <= ULONG_MAX without a run-time division: ULONG_MAX = 10 * VP_Q + 5 */
+#define VP_Q 1844674407370955161UL
+_Static_assert(ULONG_MAX == 10UL * VP_Q + 5UL, "LP64 expected");
+#define VP_FITS_ULONG(acc, d) ((acc) < VP_Q || ((acc) == VP_Q && (d) <= 5UL))
+static int vp_dec_huge(const char *s, int a, int b)
 {
 	unsigned long acc = 0;
 	for (int k = 0; k < VP_N; k++) {
 		if (k < a || k >= b)
 			continue;
 		unsigned long d = (unsigned long) (s[k] - '0');
-		if (!VP_FITS_LONG(acc, d, neg))
+		if (!VP_FITS_ULONG(acc, d))
 			return 1;
 		acc = acc * 10UL + d;
 	}
 	return 0;
 }
-static unsigned long vp_dec_mag(const char *s, int a, int b, int neg)
+static unsigned long vp_dec_mag(const char *s, int a, int b)
 {
 	unsigned long acc = 0;
 	for (int k = 0; k < VP_N; k++) {
 		if (k < a || k >= b)
 			continue;
 		unsigned long d = (unsigned long) (s[k] - '0');
-		if (!VP_FITS_LONG(acc, d, neg))
-			return VP_LIM(neg);
+		if (!VP_FITS_ULONG(acc, d))
+			return 0;
 		acc = acc * 10UL + d;
 	}
 	return acc;
 }
 #endif
+/* the run is a number that fits an int */
+static int vp_fits_int(const char *s, int a, int b)
+{
+	return !vp_dec_huge(s, a, b) && vp_dec_mag(s, a, b) <= (unsigned long) INT_MAX;
+}
 
 /* ------------------------------------------------------------------------
  * Trusted libc models.  Both are written position by position over the buffer being
@@ -107,7 +108,11 @@ static unsigned long vp_dec_mag(const char *s, int a, int b, int neg)
  * ------------------------------------------------------------------------ */
 char *m_base;              /* start of the buffer strtok_r is splitting */
 int m_pos;                 /* scan position: *save == m_base + m_pos */
-#define MODEL_FRAME m_base, m_pos
+/* ghost record: the k-th strtol conversion since strtok_r started a new string read
+ * the digits m_base[m_conv_a[k] .. m_conv_b[k]) */
+#define M_CONV_MAX 4
+int m_conv_n, m_conv_a[M_CONV_MAX], m_conv_b[M_CONV_MAX];
+#define MODEL_FRAME m_base, m_pos, m_conv_n, __CPROVER_object_whole(m_conv_a), __CPROVER_object_whole(m_conv_b)
 
 /* ---- strtok_r, POSIX.1-2008 (CBMC ships no body) ---- */
 char *m_strtok_r(char *s, const char *delim, char **save)
@@ -115,6 +120,7 @@ char *m_strtok_r(char *s, const char *delim, char **save)
 	if (s != NULL) {
 		m_base = s;
 		m_pos = 0;
+		m_conv_n = 0;
 	} else {
 		MODEL_ASSERT(*save == m_base + m_pos, "strtok_r continues the string it started");
 	}
@@ -188,11 +194,16 @@ long m_strtol(const char *nptr, char **endptr, int base)
 	}
 	if (endptr != NULL)
 		*endptr = m_base + b;
-	if (vp_dec_over(m_base, a, b, neg)) {
+	if (m_conv_n >= 0 && m_conv_n < M_CONV_MAX) {
+		m_conv_a[m_conv_n] = a;
+		m_conv_b[m_conv_n] = b;
+		m_conv_n++;
+	}
+	unsigned long mag = vp_dec_mag(m_base, a, b);
+	if (vp_dec_huge(m_base, a, b) || mag > VP_LIM(neg)) {
 		errno = ERANGE;
 		return neg ? LONG_MIN : LONG_MAX;
 	}
-	unsigned long mag = vp_dec_mag(m_base, a, b, neg);
 	if (neg)
 		return mag == (unsigned long) LONG_MAX + 1UL ? LONG_MIN : -(long) mag;
 	return (long) mag;
@@ -208,16 +219,18 @@ long m_strtol(const char *nptr, char **endptr, int base)
  * ("1..3"), extra component ("1.2.3.4"), non-numeric ("1.O.0"), sign ("+1.2.3",
  * "-1.0.0"), white space (" 1.2.3"), trailing garbage ("1.2.3x"), a number
  * that does not fit an int.
- * spec_strict(s, k): -1 if s is not well-formed, else the value of component k.
+ * spec_wellformed(s); spec_value(s, k): the value of component k of a well-formed s;
+ * spec_strict(s, k): -1 if s is not well-formed, else spec_value(s, k).
  * ------------------------------------------------------------------------ */
-static int spec_strict(const char *s, int k)
+/* spec_run(s, k, end): -1 if s does not have the SHAPE digits.digits.digits[-anything],
+ * else the offset where component k starts (end = 0) or ends (end = 1) */
+static int spec_run(const char *s, int k, int end)
 {
 	/* one pass, position by position (constant indices keep the SAT problem small) */
 	int comp = 0;                    /* component being read: 0 major, 1 minor, 2 patch */
 	int a[3] = { -1, -1, -1 };       /* component c is the digit run s[a[c]..b[c]) */
 	int b[3] = { -1, -1, -1 };
-	int done = 0;
-	for (int i = 0; i < VP_N && !done; i++) {
+	for (int i = 0; i < VP_N; i++) {
 		char c = s[i];
 		if (c >= '0' && c <= '9') {
 			if (a[comp] < 0)
@@ -231,17 +244,30 @@ static int spec_strict(const char *s, int k)
 			if (a[2] < 0)
 				return -1;
 			b[2] = i;
-			done = 1;
+			return end ? b[k] : a[k];
 		} else {
 			return -1;
 		}
 	}
-	if (!done)
-		return -1;               /* not terminated within VP_N bytes */
-	for (int c = 0; c < 3; c++)
-		if (vp_dec_over(s, a[c], b[c], 0) || vp_dec_mag(s, a[c], b[c], 0) > (unsigned long) INT_MAX)
-			return -1;       /* does not fit an int */
-	return (int) vp_dec_mag(s, a[k], b[k], 0);
+	return -1;                       /* not terminated within VP_N bytes */
+}
+#define VP_A(s, k) spec_run((s), (k), 0)
+#define VP_B(s, k) spec_run((s), (k), 1)
+static int spec_wellformed(const char *s)
+{
+	return VP_A(s, 0) >= 0 &&
+		vp_fits_int(s, VP_A(s, 0), VP_B(s, 0)) &&
+		vp_fits_int(s, VP_A(s, 1), VP_B(s, 1)) &&
+		vp_fits_int(s, VP_A(s, 2), VP_B(s, 2));
+}
+/* value of component k of a well-formed string */
+static int spec_value(const char *s, int k)
+{
+	return (int) (vp_dec_mag(s, VP_A(s, k), VP_B(s, k)) & 0x7fffffffUL);
+}
+static int spec_strict(const char *s, int k)
+{
+	return spec_wellformed(s) ? spec_value(s, k) : -1;
 }
 
 /* spec_actual(s, k): the language the code at the pinned commit really accepts (FINDING,
@@ -255,13 +281,13 @@ static int spec_strict(const char *s, int k)
  *        if the result is non-negative ("4294967297.0.0" is 1.0.0).
  * Used (a) to carve exactly these strings out of the strict contract and (b) to prove
  * that nothing else is accepted. */
-static int spec_actual(const char *s, int k)
+/* shape only: -1 if refused for its shape, else for component k the offset where its
+ * digits start (what = 0) / end (what = 1), or whether it carries a '-' (what = 2) */
+static int spec_actual_run(const char *s, int k, int what)
 {
 	int comp = 0;
 	int ph = 0;              /* 0 before the number, 1 in its white space, 2 after its sign, 3 in its digits */
-	int neg = 0;
-	int a = -1;
-	int val[3] = { 0, 0, 0 };
+	int a[3] = { -1, -1, -1 }, b[3] = { -1, -1, -1 }, neg[3] = { 0, 0, 0 };
 	for (int i = 0; i < VP_N; i++) {
 		char c = s[i];
 		int isdelim = (c == '.' || (comp == 2 && c == '-'));
@@ -272,38 +298,56 @@ static int spec_actual(const char *s, int k)
 			continue;
 		}
 		if (ph <= 1 && (c == '+' || (c == '-' && comp < 2))) {
-			neg = (c == '-');                                /* L3 */
+			neg[comp] = (c == '-');                          /* L3 */
 			ph = 2;
 			continue;
 		}
 		if (c >= '0' && c <= '9') {
 			if (ph != 3)
-				a = i;
+				a[comp] = i;
 			ph = 3;
 			continue;
 		}
 		if (ph == 3 && (isdelim || c == '\0')) {
-			if (vp_dec_over(s, a, i, neg))
-				return -1;                               /* does not fit a long: refused */
-			unsigned long mag = vp_dec_mag(s, a, i, neg);
-			/* L4: conversion long -> int keeps the low 32 bits on this ABI */
-			unsigned int low = (unsigned int) ((neg ? 0UL - mag : mag) & 0xffffffffUL);
-			if (low > (unsigned int) INT_MAX)
-				return -1;                               /* negative (after conversion) */
-			val[comp] = (int) low;
-			if (comp == 2)
-				return val[k];                           /* L2: the rest is ignored */
+			b[comp] = i;
+			if (comp == 2)                                   /* L2: the rest is ignored */
+				return what == 0 ? a[k] : what == 1 ? b[k] : neg[k];
 			if (c == '\0')
 				return -1;                               /* missing component */
 			comp++;
 			ph = 0;
-			neg = 0;
 			continue;
 		}
 		return -1;
 	}
 	return -1;
 }
+#define VA_A(s, k)   spec_actual_run((s), (k), 0)
+#define VA_B(s, k)   spec_actual_run((s), (k), 1)
+#define VA_NEG(s, k) spec_actual_run((s), (k), 2)
+/* the digits s[a..b) with sign neg, as version_parse stores them: strtol must not
+ * overflow a long; L4: the conversion long -> int keeps the low 32 bits on this ABI
+ * and the result must not be negative.  -1 if refused. */
+static int vp_actual_value(const char *s, int a, int b, int neg)
+{
+	unsigned long mag = vp_dec_mag(s, a, b);
+	if (vp_dec_huge(s, a, b) || mag > VP_LIM(neg))
+		return -1;
+	unsigned int low = (unsigned int) ((neg ? 0UL - mag : mag) & 0xffffffffUL);
+	if (low > (unsigned int) INT_MAX)
+		return -1;
+	return (int) low;
+}
+static int spec_actual(const char *s, int k)
+{
+	if (VA_A(s, 0) < 0)
+		return -1;
+	for (int c = 0; c < 3; c++)
+		if (vp_actual_value(s, VA_A(s, c), VA_B(s, c), VA_NEG(s, c)) < 0)
+			return -1;
+	return vp_actual_value(s, VA_A(s, k), VA_B(s, k), VA_NEG(s, k));
+}
+#define VP_ACCEPTED(s) (spec_actual((s), 0) >= 0)
 
 /* every maximal run of digits is a number <= INT_MAX (so that the conversion
  * (int) strtol(..) in version_parse never narrows, whether the string is accepted or not) */
@@ -316,7 +360,7 @@ static int spec_ints_fit(const char *s)
 			if (a < 0)
 				a = i;
 		} else {
-			if (a >= 0 && (vp_dec_over(s, a, i, 0) || vp_dec_mag(s, a, i, 0) > (unsigned long) INT_MAX))
+			if (a >= 0 && !vp_fits_int(s, a, i))
 				return 0;
 			a = -1;
 		}
@@ -335,10 +379,10 @@ static int spec_terminated(const char *s)
 	return 0;
 }
 
-#define VP_WELLFORMED(s)  (spec_strict((s), 0) >= 0)
+#define VP_WELLFORMED(s)  (spec_wellformed(s))
 /* CARVE-OUT (finding "lenient version_parse"): the strings on which the two languages
  * differ, and those holding a number that (int) strtol(..) would narrow */
-#define VP_CARVE(s)       ((spec_strict((s), 0) >= 0) == (spec_actual((s), 0) >= 0) && spec_ints_fit(s))
+#define VP_CARVE(s)       (spec_wellformed(s) == VP_ACCEPTED(s) && spec_ints_fit(s))
 #define VP_COMPAT(w0, w1, h0, h1) ((w0) == (h0) && (w1) <= (h1))
 
 /* diagnostics counters: callee contracts that are also used for replacement tolerate
